@@ -21,7 +21,7 @@ from ..core import Ctx, PropSpec, Unsupported
 from ..extract import where
 from ..facts import FactFlow
 from ..harness import Harness
-from ..interp import Obj, Raised, StepLimit
+from ..interp import pub, Obj, Raised, StepLimit
 from . import xmlcommon as X
 from ..models import ccsds_bytes, file_source, source_externals
 
@@ -207,11 +207,15 @@ def real_framer(ctx: Ctx):
     counts["idle, telecommand and repeated-count packets"] = len(mixed)
     cases["only idle packets"] = mixed[2] + mixed[6]
     counts["only idle packets"] = 2
-    for name, data in cases.items():
-        site = f"{fi.key}::real-framer::{name}"
+    runs = [(name, data, False) for name, data in cases.items()]
+    # the same listing with verbose logging switched on (`spp -v ...` / --log-level DEBUG): what is logged is not what is listed
+    runs += [(name, cases[name], True) for name in ("empty file", "header only", "2 stray bytes", "3 packets", "12 packets", "only idle packets")]
+    for name, data, dbg in runs:
+        site = f"{fi.key}::real-framer::{name}" + ("::DEBUG logging" if dbg else "")
         rec = Rec()
         ext = rec.ext(opener=lambda *a, data=data, **k: file_source(data))
         h = Harness(prog, ext, max_steps=60000 + 500 * min(len(data), 2000) + len(data) // 4)
+        h.it.ext["debug_logging"] = dbg
         npk = counts.get(name, data.count(one) if name != "header only" else 0)
         try:
             kind, got = h.outcome("describe_packets(fp)", CLI, fp="FILE")
@@ -224,13 +228,17 @@ def real_framer(ctx: Ctx):
         nrows = sum(1 for r in rec.rows if not all(x == "..." for x in r))
         want_rows = npk if npk <= MAX_SPEC else 2 * HEAD_SPEC
         ctx.decide(kind == "ok" and nrows == want_rows, "R19.4", site, f"{nrows} rows",
-                   f"describe-packets on a file with {name}: {'ends in ' + str(got) if kind != 'ok' else str(nrows) + ' rows'}; "
+                   f"describe-packets{' with DEBUG logging' if dbg else ''} on a file with {name}: {'ends in ' + str(got) if kind != 'ok' else str(nrows) + ' rows'}; "
                    f"expected a listing of {npk} packets without a traceback", where=where(fi, fi.node))
     # parse command on the same kinds of files (definition stubbed out to header-only parsing through the real generator)
     fp = prog.func(f"{CLI}::parse")
-    for name, data, pks in (("empty file", b"", []), ("2 stray bytes", b"\x01\x02", []), ("3 packets", one * 3, [one] * 3),
-                            ("2 packets and a cut third", one * 2 + one[:7], [one] * 2),
-                            ("idle, telecommand and repeated-count packets", b"".join(mixed), mixed)):
+    rec4 = b"".join(b"\xe1\xe2\xe3\xe4" + p for p in mixed[:3])
+    for name, data, pks, skip in (("empty file", b"", [], 0), ("2 stray bytes", b"\x01\x02", [], 0), ("3 packets", one * 3, [one] * 3, 0),
+                                  ("2 packets and a cut third", one * 2 + one[:7], [one] * 2, 0),
+                                  ("idle, telecommand and repeated-count packets", b"".join(mixed), mixed, 0),
+                                  ("records with a 4-byte prefix (--skip-header-bytes 4)", rec4, mixed[:3], 4),
+                                  ("records with a 4-byte prefix, the last one cut 2 bytes short", rec4[:-2], mixed[:2], 4),
+                                  ("records with a 4-byte prefix, the last one cut inside its prefix", rec4 + b"\xe1\xe2", mixed[:3], 4)):
         site = f"{fp.key}::real-framer::{name}"
         rec = Rec()
         ext = rec.ext(opener=lambda *a, data=data, **k: file_source(data))
@@ -250,8 +258,8 @@ def real_framer(ctx: Ctx):
         for idx in (None, 0, 1, 2, 3, 4, 5, 6, 7):
             n_pp, n_pr = len(rec.pprinted), len(rec.printed)
             try:
-                kind, got = h.outcome("parse(pf, df, packet=idx, max_items=20, max_string=40, skip_header_bytes=0)", CLI,
-                                      pf="P", df="X", idx=idx)
+                kind, got = h.outcome("parse(pf, df, packet=idx, max_items=20, max_string=40, skip_header_bytes=skip)", CLI,
+                                      pf="P", df="X", idx=idx, skip=skip)
             except StepLimit:
                 kind, got = "diverges", None
             except (Unsupported, Raised) as e:
@@ -262,7 +270,7 @@ def real_framer(ctx: Ctx):
             if ok:
                 # what is shown: all packets, packet number idx, or (only for idx >= number of packets) an out-of-range message
                 def raw_of(p):
-                    r = getattr(p, "attrs", {}).get("raw_data") if not isinstance(p, (bytes, bytearray)) else p
+                    r = pub(p, "raw_data") if not isinstance(p, (bytes, bytearray)) else p
                     return bytes(r) if isinstance(r, (bytes, bytearray)) else None
                 shown = rec.pprinted[n_pp:]
                 msgs = [m for m in rec.printed[n_pr:] if isinstance(m, str)]
@@ -337,7 +345,8 @@ SPEC = PropSpec(
                  "empty files, files with stray trailing bytes and truncated packets: a listing, never a traceback or "
                  "a hang (bounded interpreter steps). Does not decide rich's rendering."
                  ' The real framer is also run on a file with a maximum-size packet (thorough: a 45 MB file).'
-                 " spp parse runs the library's real packet_generator over a header-only definition (only XML loading is stubbed), on empty, stray, complete and cut files and indices up to beyond the end."),
+                 " spp parse runs the library's real packet_generator over a header-only definition (only XML loading is stubbed), on empty, stray, complete and cut files and indices up to beyond the end."
+                 ' R19.4 also checks what `spp parse --packet i` shows (packet i of the file, or exactly one out-of-range message naming the number of packets) on files with idle (APID 2047), telecommand and repeated-count packets.'),
     rule_doc="R19.1 one obligation per n; R19.2 per (n, index); R19.2g guard dominance; R19.3 per command; R19.4 per file kind",
     assumptions=["click passes the declared option types", "framer behaviour on sized sources as decided by C10"],
     mutants=mutants,
